@@ -6,9 +6,17 @@ from .grammar import Grammar
 
 def tok_bytes(g, toks, rnd=None, ws=0.0, wschars=b' \t\n\r\x0b\x0c'):
     out = bytearray()
+    sep = False
     for i, t in enumerate(toks):
-        if rnd and ws and rnd.random() < ws:
-            for _ in range(rnd.choice([1, 1, 2, 3])): out.append(rnd.choice(wschars))
+        if (rnd and ws and rnd.random() < ws) or sep:
+            for _ in range(rnd.choice([1, 1, 2, 3]) if rnd else 1): out.append(rnd.choice(wschars) if rnd else 0x20)
+        sep = False
+        if t < g.T and g.terms[t].kind == 'r':
+            from . import ref_regex as rr
+            r2 = rnd or random.Random(len(toks) * 131 + i)
+            out += rr.sample_string(rr.parse(g.terms[t].text.encode('latin-1')), r2)
+            sep = (i + 1 < len(toks) and (toks[i + 1] == t or r2.random() < 0.5))     # keep adjacent lexemes of the same regex term apart
+            continue
         out += g.terms[t].text.encode('latin-1') if t < g.T else b''
     if rnd and ws and rnd.random() < ws: out.append(rnd.choice(wschars))
     return bytes(out)
